@@ -77,7 +77,9 @@ def tasks(tier):
     # group template (C03 bounded) and every shipped one_timestep (C04)
     deps = ['dep:C03:determinism', 'dep:C01:sortseg', 'dep:C01:sortflag',
             'dep:C01:cache', 'dep:C01:cellsize', 'dep:C01:update',
-            'dep:C01:pidspace', 'dep:C01:octroot',
+            'dep:C01:pidspace', 'dep:C01:octroot', 'dep:C01:shreach',
+            'dep:C01:eshreach', 'dep:C01:sortnbrs', 'dep:C01:sentinel',
+            'dep:C01:pidslices',
             'dep:C17:apply', 'dep:C03:bounded', 'dep:C04:traces',
             'dep:C04:accel']
     return ['frames:%s' % m for m in mods] + ['reorder', 'wiring',
